@@ -278,9 +278,9 @@ class TCPPacketGenerator(Device, OutMixIn):
                     f"Sent packet {packet.packet_id} with size {packet.size}, "
                     f"flow_id {packet.flow_id} at time {env.now:.4f}"
                 )
-                assert self.out
-                self.out.put(packet)
-
+                # finish the bookkeeping and arm the timer before the packet
+                # leaves: over a zero-delay path the ACK comes back inside
+                # out.put() and must find the timer it has to cancel
                 self.next_seq += packet.size
                 self.timers[packet.packet_id] = Timer(
                     env,
@@ -292,6 +292,8 @@ class TCPPacketGenerator(Device, OutMixIn):
                     f"Setting a timer for packet {packet.packet_id} with an "
                     f"RTO of {self.rto:.4f}"
                 )
+                assert self.out
+                self.out.put(packet)
             else:
                 yield self.cwnd_avaialbe.get()
 
